@@ -18,7 +18,7 @@ pub fn prop() -> Prop {
          Ok) then the independent reference parser accepts the WHOLE input as exactly one type / one selection set. \
          Non-trivial: prefix or suffix contains a non-ignored token; distinct by (entry kind, text).",
     )
-    .random("affixed", check, |t| if t == Tier::Quick { 1_500_000 } else { 12_000_000 }, |t| if t == Tier::Quick { 120 } else { 200 })
+    .random("affixed", check, |t| if t == Tier::Quick { 4_000_000 } else { 12_000_000 }, |t| if t == Tier::Quick { 120 } else { 200 })
     .text(check_text_both)
     .assumptions(&[
         "a panic of a standalone entry point is C01's subject (reported there); here such inputs are counted under class 'panic' and not judged",
